@@ -834,6 +834,62 @@ theorem rejected_raw_noop (bks : List Bucket) (price fuel : Nat) (db : DB) (t : 
   · rename_i hv; simp [hv] at h
   · rfl
 
+/-! ### copies inside the transient entries, and the read set as a set -/
+
+/-- declared contract output `i` replaced by a copy of a different declared contract output `j` (whether or not the
+real outputs are changed alike): refused -/
+theorem dup_transfer_rejected (bks : List Bucket) (price fuel : Nat) (db : DB) (hdb : db.WF) {σ : Type}
+    (R : UReader σ) (hR : R.Lawful) (st : σ) (p : Prog)
+    (pre : Pre) (h : preexec bks fuel db R st p = some pre) (t : Tx) (hp : t.prog = p) (hk : t.kin = pre.kin)
+    (hi : t.cin = pre.cin) (i j : Nat) (hli : i < pre.cx.length) (hlj : j < pre.cx.length)
+    (hne : pre.cx[i] ≠ pre.cx[j]) (hc : t.cx = pre.cx.set i pre.cx[j]) : verify bks price fuel db t = false :=
+  tamper_transfer_rejected bks price fuel db hdb R hR st p pre h t hp hk hi
+    (by rw [hc]; exact set_copy_ne pre.cx i j hli hlj hne)
+
+/-- a declared event replaced by a copy of a different one, or two different declared events swapped: refused -/
+theorem dup_event_rejected (bks : List Bucket) (price fuel : Nat) (db : DB) (hdb : db.WF) {σ : Type}
+    (R : UReader σ) (hR : R.Lawful) (st : σ) (p : Prog)
+    (pre : Pre) (h : preexec bks fuel db R st p = some pre) (t : Tx) (hp : t.prog = p) (hk : t.kin = pre.kin)
+    (hi : t.cin = pre.cin) (i j : Nat) (hli : i < pre.ev.length) (hlj : j < pre.ev.length)
+    (hne : pre.ev[i] ≠ pre.ev[j])
+    (hc : t.ev = pre.ev.set i pre.ev[j] ∨ t.ev = (pre.ev.set i pre.ev[j]).set j pre.ev[i]) :
+    verify bks price fuel db t = false := by
+  apply tamper_event_rejected bks price fuel db hdb R hR st p pre h t hp hk hi
+  rcases hc with hc | hc
+  · rw [hc]; exact set_copy_ne pre.ev i j hli hlj hne
+  · rw [hc]; exact set_swap_ne pre.ev i j hli hlj hne
+
+/-- The declared read set counts as a SET of (bucket, key, version) entries: order and repetitions change nothing
+(two reads swapped, a copy of a read appended: same verdict), and a read replaced by a copy of another one is the
+transaction with that read dropped. -/
+theorem reads_as_set (bks : List Bucket) (price fuel : Nat) (db : DB) (t : RawTx) (kin' : List REntry)
+    (h : ∀ e, e ∈ kin' ↔ e ∈ t.kin) :
+    verifyRaw bks price fuel db { t with kin := kin' } = verifyRaw bks price fuel db t := by
+  have hrs : rsOf db kin' = rsOf db t.kin := by
+    apply rsOf_congr
+    intro b k
+    constructor
+    · rintro ⟨v, hv⟩; exact ⟨v, (h _).mp hv⟩
+    · rintro ⟨v, hv⟩; exact ⟨v, (h _).mpr hv⟩
+  have hcur : readsCurrent db kin' = readsCurrent db t.kin := by
+    rw [Bool.eq_iff_iff]
+    simp only [readsCurrent, List.all_eq_true]
+    exact ⟨fun hh e he => hh e ((h e).mpr he), fun hh e he => hh e ((h e).mp he)⟩
+  have hwr : writesRead ({ t with kin := kin' } : RawTx).view = writesRead t.view := by
+    rw [Bool.eq_iff_iff]
+    simp only [writesRead, RawTx.view, List.all_eq_true, List.any_eq_true]
+    constructor
+    · intro hh w hw
+      obtain ⟨r, hr, hc⟩ := hh w hw
+      exact ⟨r, (h r).mp hr, hc⟩
+    · intro hh w hw
+      obtain ⟨r, hr, hc⟩ := hh w hw
+      exact ⟨r, (h r).mpr hr, hc⟩
+  have heff : effective ({ t with kin := kin' } : RawTx).view = effective t.view := rfl
+  have hre : reexecRaw bks fuel db { t with kin := kin' } = reexecRaw bks fuel db t := by
+    simp only [reexecRaw, RawTx.view, hrs]
+  simp only [verifyRaw, hcur, hwr, heff, hre]
+
 /-! non-vacuity on the demonstration transaction: its `TxOutputsExt` holds 3 transient entries and 3 stored writes -/
 
 def demoRaw : RawTx := (assemble 1 7 demoProg demoPre).raw
